@@ -358,7 +358,7 @@ func seqSnapshotPrefix(b *drive.Builder) {
 	}
 }
 
-func seqPlan(c *core.Ctx) []seqEra { return seqPlanFor(c.Thorough()) }
+
 
 // seqReplay runs the one sequence named by a key "seq/<era>/<e1>.<e2>...", whatever tier listed it.
 func seqReplay(c *core.Ctx, r *core.Result, prop string) {
@@ -366,7 +366,7 @@ func seqReplay(c *core.Ctx, r *core.Result, prop string) {
 	if len(parts) != 3 {
 		return
 	}
-	for _, pl := range append(seqPlanFor(true), seqPlanFor(false)...) {
+	for _, pl := range append(seqPlanFor(true, ""), seqPlanFor(false, "")...) {
 		if pl.era.Name != parts[1] {
 			continue
 		}
@@ -399,7 +399,7 @@ func seqReplay(c *core.Ctx, r *core.Result, prop string) {
 	}
 }
 
-func seqPlanFor(thorough bool) []seqEra {
+func seqPlanFor(thorough bool, prop string) []seqEra {
 	st := func(stage, depth int) seqEra { return seqEra{drive.EraStage(stage), depth, FundStd} }
 	bd := func(stage, depth int) seqEra { return seqEra{seqBoundary(stage), depth, FundStd} }
 	sn := func(stage, depth int) seqEra {
@@ -407,12 +407,23 @@ func seqPlanFor(thorough bool) []seqEra {
 		e.Name += "-across-snapshot"
 		return seqEra{e, depth, seqSnapshotPrefix}
 	}
-	if thorough {
-		return []seqEra{st(drive.StPIP10, 4), st(drive.StV202, 4), st(drive.StV4, 4), st(drive.StV20, 3), st(drive.StOneWayFCT, 3), st(drive.StBank, 3), st(drive.StPegPrice, 3),
-			bd(drive.StV4, 4), bd(drive.StV20Dev, 3), bd(drive.StV204Burn, 4), bd(drive.StPegPrice, 3), bd(drive.StOneWayFCT, 3), bd(drive.StBank, 3),
-			sn(drive.StPIP10, 4), sn(drive.StV202, 3), sn(drive.StV20Dev, 3)}
+	if !thorough {
+		return []seqEra{st(drive.StPIP10, 3), st(drive.StV4, 2), st(drive.StV202, 2), bd(drive.StV4, 2), bd(drive.StV204Burn, 2), bd(drive.StV20Dev, 2), bd(drive.StOneWayFCT, 2), sn(drive.StPIP10, 3)}
 	}
-	return []seqEra{st(drive.StPIP10, 3), st(drive.StV4, 2), st(drive.StV202, 2), bd(drive.StV4, 2), bd(drive.StV204Burn, 2), bd(drive.StV20Dev, 2), bd(drive.StOneWayFCT, 2), sn(drive.StPIP10, 3)}
+	// thorough: depth 3 everywhere, depth 4 in the current era and in one more era that depends on the property
+	// (the six properties share the explorer; between them every listed era is covered to depth 4)
+	plan := []seqEra{st(drive.StPIP10, 4), st(drive.StV202, 3), st(drive.StV4, 3), st(drive.StV20, 3), st(drive.StOneWayFCT, 3), st(drive.StBank, 3), st(drive.StPegPrice, 3),
+		bd(drive.StV4, 3), bd(drive.StV20Dev, 3), bd(drive.StV204Burn, 3), bd(drive.StPegPrice, 3), bd(drive.StOneWayFCT, 3), bd(drive.StBank, 3),
+		sn(drive.StPIP10, 3), sn(drive.StV202, 3), sn(drive.StV20Dev, 3)}
+	deep := map[string]int{"C03": 2, "C04": 1, "C06": 13, "C07": 9, "C13": 7, "C17": 14}
+	if i, ok := deep[prop]; ok {
+		plan[i].depth = 4
+	} else {
+		for i := range plan {
+			plan[i].depth = 4 // replay look-up: every era name
+		}
+	}
+	return plan
 }
 
 var seqProps = []string{"C03", "C04", "C06", "C07", "C13", "C17"}
@@ -446,7 +457,7 @@ func seqExplore(c *core.Ctx, r *core.Result, prop string) {
 		return
 	}
 	idx := 0
-	for _, pl := range seqPlan(c) {
+	for _, pl := range seqPlanFor(c.Thorough(), prop) {
 		alpha := seqAlphabet(pl.era)
 		x := &seqX{c: c, r: r, era: pl.era, alpha: alpha, prop: prop}
 		var w *World
